@@ -12,8 +12,10 @@ import (
 	"strings"
 	"sync"
 	"testing"
+	"time"
 
 	kmip "github.com/ovh/kmip-go"
+	"github.com/ovh/kmip-go/payloads"
 	"github.com/ovh/kmip-go/ttlv"
 	"pgregory.net/rapid"
 
@@ -26,7 +28,10 @@ import (
 // A job: decode a binary message into its Go type, then produce all four encodings and the
 // binary re-encoding of the XML and JSON round trips.
 type c20Job struct {
-	Kind string `json:"kind"` // request | response | value | cparams (a header-less typed value: no version applies)
+	// request | response | value | cparams (a header-less typed value: no version applies) |
+	// failing (a request that is made unencodable in the child - a negative interval in an appended item - and
+	// whose encodings, as well as truncated decodes, are attempted and recovered: calls that fail are part of a history too)
+	Kind string `json:"kind"`
 	Hex  string `json:"hex"`
 	// Expect: the binary encoding the reference encoder predicts for the decoded value (every child must produce it)
 	Expect string `json:"expect_binary_hex,omitempty"`
@@ -41,7 +46,7 @@ type c20Plan struct {
 
 func c20Fresh(kind string) any {
 	switch kind {
-	case "request":
+	case "request", "failing":
 		return &kmip.RequestMessage{}
 	case "response":
 		return &kmip.ResponseMessage{}
@@ -96,6 +101,9 @@ func c20Exec(j c20Job, e *c20Encoders) (digest string) {
 	if err := ttlv.UnmarshalTTLV(raw, v); err != nil {
 		return "decode error: " + err.Error()
 	}
+	if j.Kind == "failing" {
+		return c20Failing(v.(*kmip.RequestMessage), raw, e)
+	}
 	h := sha256.New()
 	bin := e.encode("binary", v)
 	if j.Expect != "" && hex.EncodeToString(bin) != j.Expect {
@@ -111,16 +119,66 @@ func c20Exec(j c20Job, e *c20Encoders) (digest string) {
 	vx := c20Fresh(j.Kind)
 	if err := ttlv.UnmarshalXML(x, vx); err != nil {
 		fmt.Fprintf(h, "xmlerr:%s", err)
+		if j.Expect != "" {
+			return "text-round-trip-broken:xml decode: " + err.Error()
+		}
 	} else {
-		h.Write(e.encode("binary", vx))
+		b := e.encode("binary", vx)
+		if j.Expect != "" && !bytes.Equal(b, bin) {
+			return "text-round-trip-broken:xml gives " + hex.EncodeToString(b)
+		}
+		h.Write(b)
 	}
 	vj := c20Fresh(j.Kind)
 	if err := ttlv.UnmarshalJSON(js, vj); err != nil {
 		fmt.Fprintf(h, "jsonerr:%s", err)
+		if j.Expect != "" {
+			return "text-round-trip-broken:json decode: " + err.Error()
+		}
 	} else {
-		h.Write(e.encode("binary", vj))
+		b := e.encode("binary", vj)
+		if j.Expect != "" && !bytes.Equal(b, bin) {
+			return "text-round-trip-broken:json gives " + hex.EncodeToString(b)
+		}
+		h.Write(b)
 	}
 	return hex.EncodeToString(h.Sum(nil))
+}
+
+// c20Failing makes calls that fail: the message gets an item the encoders refuse half-way through the
+// document (a negative interval), and truncated documents are decoded. Every failure is recovered, as a
+// server's or a caller's recover would; the digest says which calls failed.
+func c20Failing(m *kmip.RequestMessage, raw []byte, e *c20Encoders) string {
+	good := map[string][]byte{}
+	for _, enc := range []string{"xml", "json"} {
+		good[enc] = e.encode(enc, m)
+	}
+	m.BatchItem = append(m.BatchItem, kmip.RequestBatchItem{Operation: kmip.OperationCreate, RequestPayload: &payloads.CreateRequestPayload{
+		ObjectType: kmip.ObjectTypeSymmetricKey,
+		TemplateAttribute: kmip.TemplateAttribute{Attribute: []kmip.Attribute{
+			{AttributeName: kmip.AttributeNameCryptographicLength, AttributeValue: int32(256)},
+			{AttributeName: kmip.AttributeNameLeaseTime, AttributeValue: -time.Hour},
+		}},
+	}})
+	m.Header.BatchCount++
+	out := "failing:"
+	for _, enc := range []string{"json", "xml", "binary", "text", "json"} {
+		func() {
+			defer func() {
+				if recover() != nil {
+					out += enc + "=panic;"
+				}
+			}()
+			e.encode(enc, m)
+			out += enc + "=ok;"
+		}()
+	}
+	if len(raw) > 16 {
+		out += fmt.Sprintf("binary-decode-failed=%v;", ttlv.UnmarshalTTLV(raw[:len(raw)-5], &kmip.RequestMessage{}) != nil)
+	}
+	out += fmt.Sprintf("xml-decode-failed=%v;", ttlv.UnmarshalXML(good["xml"][:len(good["xml"])/2], &kmip.RequestMessage{}) != nil)
+	out += fmt.Sprintf("json-decode-failed=%v;", ttlv.UnmarshalJSON(good["json"][:len(good["json"])/2], &kmip.RequestMessage{}) != nil)
+	return out
 }
 
 // TestC20Child is the body of the child processes (no-op unless VERIF_C20_MODE is set).
@@ -220,6 +278,9 @@ func c20Run(p c20Plan, dir string) (sig string, err error) {
 		if strings.HasPrefix(d, "binary-differs-from-reference:") {
 			return "result-depends-on-history", fmt.Errorf("job %d (%s): the sequential child (jobs in list order, one process) encodes %s, the reference encoder predicts %s for this value alone", i, p.Jobs[i].Kind, d[30:], p.Jobs[i].Expect)
 		}
+		if strings.HasPrefix(d, "text-round-trip-broken:") {
+			return "result-depends-on-history", fmt.Errorf("job %d (%s %s): in the sequential child (jobs in list order, one process) the XML/JSON document of this value no longer decodes to the same binary encoding: %s", i, p.Jobs[i].Kind, p.Jobs[i].Hex, d[23:])
+		}
 	}
 	for _, mode := range []string{"concurrent", "history"} {
 		got, out, err := c20RunChild(mode, planPath)
@@ -248,9 +309,9 @@ func tail(s string) string {
 
 func TestC20History(t *testing.T) {
 	const name = "TestC20History"
-	rec := evid.New("C20", name, "work lists of 2..14 encode/decode jobs (requests, responses, generic values and header-less typed values - CryptographicParameters with later-version fields - of mixed versions) executed by three fresh child processes of the test binary: sequentially (reference), "+
+	rec := evid.New("C20", name, "work lists of 2..14 encode/decode jobs (requests, responses, generic values, header-less typed values - CryptographicParameters with later-version fields - of mixed versions, and jobs whose calls fail: a request made unencodable by a negative interval, truncated documents) executed by three fresh child processes of the test binary: sequentially (reference), "+
 		"concurrently from a cold start with G in {2,8,32} goroutines released together in a drawn permutation, and on one reused, cleared encoder per encoding after a drawn prefix of unrelated jobs and in reverse order; "+
-		"oracle: per-job digest of the four encodings and of the binary re-encoding after the XML and JSON round trips is identical across the children, and every child's binary encoding equals the one the reference encoder predicts for the value alone; the race-built variant additionally fails on any reported data race; "+
+		"oracle: per-job digest of the four encodings and of the binary re-encoding after the XML and JSON round trips is identical across the children, every child's binary encoding equals the one the reference encoder predicts for the value alone, and in every child the XML and JSON documents of a typed message decode back to that binary encoding; the race-built variant additionally fails on any reported data race; "+
 		"non-trivial = the list holds messages of at least two different protocol versions or two different kinds; distinct by plan").Attach(t)
 	dir := t.TempDir()
 	if rp := evid.LoadReplay(name); rp != nil {
@@ -273,9 +334,19 @@ func TestC20History(t *testing.T) {
 		p := c20Plan{Goroutines: rapid.SampledFrom([]int{2, 8, 32}).Draw(rt, "goroutines")}
 		versions := map[string]bool{}
 		kinds := map[string]bool{}
+		failing := 0
 		for i := 0; i < n; i++ {
 			var j c20Job
-			switch rapid.IntRange(0, 4).Draw(rt, "kind") {
+			switch rapid.IntRange(0, 5).Draw(rt, "kind") {
+			case 5:
+				m := gen.Request(rt, gen.MsgOpts{Alphabet: "xml", TextSafe: true, MaxItems: 2})
+				w := &refwalk.Walker{}
+				tr, err := w.Message(m)
+				if err != nil {
+					rt.Fatalf("harness: %v", err)
+				}
+				j = c20Job{Kind: "failing", Hex: hex.EncodeToString(ttlvref.Write(tr))}
+				failing++
 			case 0:
 				to := gen.DefaultTreeOpts()
 				to.TextSafe, to.Alphabet, to.MaxDepth = true, "xml", 3
@@ -317,7 +388,7 @@ func TestC20History(t *testing.T) {
 		p.Prefix = rapid.SliceOfN(rapid.IntRange(0, n-1), 0, 4).Draw(rt, "prefix")
 		key, _ := json.Marshal(p)
 		nt := len(versions) >= 2 || len(kinds) >= 2
-		rec.Case(nt, key, fmt.Sprintf("goroutines=%d", p.Goroutines), fmt.Sprintf("versions=%d", len(versions)))
+		rec.Case(nt, key, fmt.Sprintf("goroutines=%d", p.Goroutines), fmt.Sprintf("versions=%d", len(versions)), fmt.Sprintf("failing-calls=%v", failing > 0))
 		rec.Eval(3*n - 1)
 		if nt && rec.WantSample() && len(key) < 3000 {
 			rec.Sample(p)
